@@ -186,6 +186,10 @@ def from_NoteContainer(notes, width=80, tuning=None):
     l = len(result[0])
     w = max(4, (width - l) - 1)
     fingerings = tuning.find_fingering(notes)
+    if len(notes) == 0:
+        # Nothing to finger is not the same as no fingering: a container
+        # without notes is a rest, drawn as from_Bar draws it
+        fingerings = [[]]
     if fingerings != []:
         # Do an attribute check
         f = []
@@ -219,7 +223,6 @@ def from_NoteContainer(notes, width=80, tuning=None):
         res = {}
         for (string, fret) in f:
             res[string] = str(fret)
-        maxfret = max(res.values())
 
         # Produce ASCII
         for i in range(len(result)):
